@@ -73,7 +73,7 @@ Definition cSTRSUB := 12.  Definition cTUPSUB := 13.
 Definition cNPBOOL := 19.  Definition cIDXOBJ := 20. Definition cFLTOBJ := 21.
 Definition cCPXOBJ := 22.  Definition cFUNCTION := 23. Definition cTYPE := 24.
 Definition cMODULE := 25.  Definition cOTHER := 26.  Definition cBUILTINFN := 28.
-Definition cNDARRAY := 29. Definition cPROXY := 30.
+Definition cNDARRAY := 29. Definition cPROXY := 30. Definition cUNDEFINED := 31.
 (* user classes: >= 100 *)
 
 (* ---------- values ---------- *)
@@ -103,7 +103,8 @@ Inductive pv :=
 | PModule (n : Z)
 | POther (n : Z)                     (* dict / set / object(): unhashable iff n < 0 *)
 | PArray (dt : Z) (shape : list Z) (cid : Z)   (* numpy.ndarray: dtype id, shape, content id *)
-| PProxy (cls : Z) (id : Z).         (* transparent proxy: its type is Proxy, its __class__ reports class cls *)
+| PProxy (cls : Z) (id : Z)          (* transparent proxy: its type is Proxy, its __class__ reports class cls *)
+| PUndefined.                        (* traits.api.Undefined: the "no value yet" singleton *)
 
 Definition class_of (v : pv) : Z :=
   match v with
@@ -121,6 +122,7 @@ Definition class_of (v : pv) : Z :=
   | PModule _ => cMODULE | POther _ => cOTHER
   | PArray _ _ _ => cNDARRAY
   | PProxy _ _ => cPROXY
+  | PUndefined => cUNDEFINED
   end.
 
 (* ---------- structural equality (same type tag, same atom) ---------- *)
@@ -163,6 +165,7 @@ Fixpoint pv_eqb (a b : pv) : bool :=
   | PCallable n, PCallable m | PModule n, PModule m | POther n, POther m => n =? m
   | PArray k s c, PArray k' s' c' => (k =? k') && zlist_eqb s s' && (c =? c')
   | PProxy c i, PProxy c' i' => (c =? c') && (i =? i')
+  | PUndefined, PUndefined => true
   | _, _ => false
   end.
 
@@ -348,6 +351,7 @@ Definition truthy (v : pv) : bool :=
   | _ => true
   end.
 
+Definition is_undefined (v : pv) : bool := match v with PUndefined => true | _ => false end.
 Definition is_proxy (v : pv) : bool := match v with PProxy _ _ => true | _ => false end.
 
 Definition is_callable (v : pv) : bool :=
